@@ -6,7 +6,7 @@ Transcribed from `/repo/jsonargparse/_actions.py` (`_ActionSubCommands.get_subco
 (`_parse_common`, `merge_config`, the `check_required` part of `validate`) and
 `_link_arguments.py` (`ActionLink.apply_parsing_links`, whose first statement is a
 `get_subcommand` call that removes left-over sections), as the code is NOW (after the
-`fix:` commits f6d3709, 124a9c5, 96e4fb9 and adfb1a7).
+`fix:` commits f6d3709, 124a9c5, 96e4fb9, adfb1a7, 456b357, a5d1a53, 00c879c and a6b5b04).
 
 Configuration objects (`Namespace`) are finite trees `Cfg`; the dotted-key addressing with a
 `prefix` that the code uses is modelled by recursion on the sub-tree (C11 is the property that
@@ -232,10 +232,11 @@ def getSubCore (h : SubHdr) (ns : List String) (fl : Flags) (cfg : Cfg) : GetRes
 
 def getSub (h : SubHdr) (ns : List String) (fl : Flags) (pre : List String) (cfg : Cfg) : Except Err GetRes :=
   let r := getSubCore h ns fl cfg
-  if fl.fail then
+  -- if subcommand is not None and subcommand not in action._name_parser_map: raise (fix 96e4fb9; since fix 456b357 BEFORE and
+  -- outside `if fail_no_subcommand:`: also for a `--cfg` document or a default config file loaded on its own)
+  if r.sub.isSome && !validNameO ns r.sub then .error (.badname (pre ++ [h.dest]))
+  else if fl.fail then
     if r.sub.isNone && !h.required then .ok ⟨r.cfg, .none, [], r.warn⟩
-    -- if subcommand is not None and subcommand not in action._name_parser_map: raise (fix 96e4fb9)
-    else if r.sub.isSome && !validNameO ns r.sub then .error (.badname (pre ++ [h.dest]))
     else if h.required && !validNameO ns r.sub then .error (.nosub (pre ++ [h.dest]))
     else .ok r
   else .ok r
@@ -533,9 +534,15 @@ abbrev Ctx := List (String × List Cfg)
 /-- `cfg_dict.get(key, {})` -/
 def narrow (key : String) (t : Cfg) : Cfg := secOf (lookup key t)
 
-/-- `_get_default_config_files`: the files of the parsers on the stack narrowed to their key, then the parser's own -/
+def lastEntry (ctx : Ctx) : Ctx :=
+  match ctx.getLast? with
+  | some e => [e]
+  | .none => []
+
+/-- `_get_default_config_files`: the files of the LAST parser on the stack (`parent_parsers.get()[-1:]`, fix 00c879c: the
+    immediate parent only) narrowed to its key, then the parser's own -/
 def filesOf (ctx : Ctx) (own : List Cfg) : List Cfg :=
-  ctx.flatMap (fun kf => kf.2.map (narrow kf.1)) ++ own
+  (lastEntry ctx).flatMap (fun kf => kf.2.map (narrow kf.1)) ++ own
 
 /-- `__default_config__`: the path of the first file, a list from the second on (tokens of the wire format) -/
 def metaTok (c : Cfg) : Val :=
@@ -568,8 +575,8 @@ def envCfgPart (E : Env) (q : P) : Cfg :=
     | .none => []
   | .none => []
 
-/-- second loop: the subcommand variable selects (if it names a choice) and the COMPLETE `parse_env` of the named
-    sub-parser (`penv`) is copied key by key -/
+/-- second loop: the subcommand variable selects (if it names a choice) and the `parse_env` of the named sub-parser (`penv`; since
+    fix a5d1a53 the environment-only one, `layerEO`) is copied key by key -/
 def envSubPart (E : Env) (penv : P → Cfg) (q : P) (c0 : Cfg) : Cfg :=
   match q.sub with
   | some h => match lookupE (getEnvVar (prefixAt E.root (q.info.path.map codes)) (codes h.dest)) E.vals with
@@ -594,19 +601,32 @@ def envOptPart (E : Env) (q : P) (c1 : Cfg) : Cfg :=
 def loadEnvC (E : Env) (penv : P → Cfg) (q : P) : Cfg :=
   envOptPart E q (envSubPart E penv q (envCfgPart E q))
 
+/-- `parse_env(env=env, defaults=False, _skip_validation=True)` of a parser (fix a5d1a53: what the subcommand branch of
+    `_load_env_vars` copies for the named sub-parser): ONLY what the environment gives — `_load_env_vars` merged over an empty
+    namespace, then `_parse_common(env=True, defaults=False, fail_no_subcommand=False)`, whose `handle_subcommands` asks the
+    sub-parsers for the same.  No `get_defaults` is involved, hence no `parent_parsers` stack -/
+def layerEO (E : Env) : Nat → Bool → P → Cfg
+  | 0, _, _ => []
+  | fuel + 1, single, q =>
+    let e := merge (loadEnvC E (layerEO E fuel single) q) []
+    match parseCommon (fun _ r => layerEO E fuel single r) ⟨false, single, .env⟩ true false q e with
+    | .ok c => c
+    | .error _ => e
+
 /-- the key under which `handle_subcommands` (started on `base` with an empty prefix) pushes the parser `r`: `prefix + name` -/
 def relKey (base r : P) : String := ".".intercalate (r.info.path.drop base.info.path.length)
 
 /-- `subparser.get_defaults(skip_validation=True)` resp. `subparser.parse_env(defaults=True, _skip_validation=True)` of
-    the parser `q` under the stack `ctx`.  Inside `parse_env` the sub-parsers named by the environment are parsed under
-    the SAME stack, the sub-parsers handled by `handle_subcommands` under the stack extended by `(key, q's files)`. -/
+    the parser `q` under the stack `ctx`.  Inside `parse_env` the sub-parsers named by the environment contribute their
+    environment-only `parse_env` (`layerEO`), the sub-parsers handled by `handle_subcommands` are asked under the stack extended by
+    `(key, q's files)` (of which `filesOf` uses the last entry). -/
 def layerC (E : Env) : Nat → Bool → Ctx → Mode → P → Cfg
   | _, _, _, .none, _ => []
   | _, single, ctx, .dflt, q => getDefaultsC single ctx q
   | 0, single, ctx, .env, q => getDefaultsC single ctx q
   | fuel + 1, single, ctx, .env, q =>
     let d := getDefaultsC single ctx q
-    let e := loadEnvC E (layerC E fuel single ctx .env) q
+    let e := loadEnvC E (layerEO E fuel single) q
     match parseCommon (fun m r => layerC E fuel single (ctx ++ [(relKey q r, r.info.pdcfs)]) m r)
         ⟨false, single, .env⟩ true false q (merge e d) with
     | .ok c => c
@@ -630,7 +650,9 @@ def pickOffset : Nat := 0
 def removeTest : String := "subcommand and len(subcommand_keys) > 1"
 def removeFilter : String := "[k for k in subcommand_keys if k != subcommand]"
 def singleTest : String := "subcommand"
-def failTests : List String := ["subcommand is None and (not (fail_no_subcommand and action._required))", "subcommand is not None and subcommand not in action._name_parser_map", "action._required and subcommand not in action._name_parser_map"]
+def failTests : List String := ["subcommand is None and (not (fail_no_subcommand and action._required))", "action._required and subcommand not in action._name_parser_map"]
+/-- the unknown-name check stands BEFORE and outside `if fail_no_subcommand:` (fix 456b357): first test of `getSub` -/
+def nameTest : String := "subcommand is not None and subcommand not in action._name_parser_map"
 def returns : List String := ["(subcommand_keys, [action._name_parser_map.get(s) for s in subcommand_keys])", "(None, None)", "(None, None)"]
 def layerCalls : List String := ["env: subnamespace = subparser.parse_env(defaults=defaults, _skip_validation=True)", "defaults: subnamespace = subparser.get_defaults(skip_validation=True)"]
 def mergeCall : String := "subparser.merge_config(cfg.get(key) or Namespace(), subnamespace)"
@@ -643,9 +665,9 @@ def defaultCfgParseCommon : List String := ["cfg=cfg", "defaults=False", "env=Fa
 def parseCommonFailDefault : String := "True"
 def parseStringPrivate : List String := ["_fail_no_subcommand=True", "_skip_validation=False"]
 def parseArgsParseCommonKw : List String := ["cfg", "defaults", "env", "skip_validation", "with_meta"]
-def envBranch : List String := ["env_var in env and isinstance(action, _ActionSubCommands)", "env_val = env[env_var]", "if env_val in action.choices:\n    cfg[action.dest] = subcommand = self._check_value_key(action, env_val, action.dest, cfg)\n    pcfg = action._name_parser_map[env_val].parse_env(env=env, defaults=defaults, _skip_validation=True)\n    for k, v in vars(pcfg).items():\n        cfg[subcommand + '.' + k] = v"]
+def envBranch : List String := ["env_var in env and isinstance(action, _ActionSubCommands)", "env_val = env[env_var]", "if env_val in action.choices:\n    cfg[action.dest] = subcommand = self._check_value_key(action, env_val, action.dest, cfg)\n    pcfg = action._name_parser_map[env_val].parse_env(env=env, defaults=False, _skip_validation=True)\n    for k, v in vars(pcfg).items():\n        cfg[subcommand + '.' + k] = v"]
 def applyLinksHead : List String := ["if apply_config_skip.get() or _ActionPrintConfig.is_print_config_requested(parser):\n    return", "subcommand, subparser = _ActionSubCommands.get_subcommand(parser, cfg, fail_no_subcommand=False)", "if subcommand and subcommand in cfg:\n    ActionLink.apply_parsing_links(subparser, cfg[subcommand])"]
-def addSubcommand : List String := ["if parser._subparsers is not None:\n    raise ValueError('Multiple levels of subcommands must be added in level order.')", "if self.dest == name:\n    raise ValueError(f\"A subcommand name can't be the same as the subcommands dest: '{name}'.\")", "parser.prog = f'{self._prog_prefix} [options] {name}'", "parser.env_prefix = f'{self.env_prefix}{name}_'", "parser.default_env = self.parent_parser.default_env", "parser.parent_parser = self.parent_parser", "parser.parser_mode = self.parent_parser.parser_mode", "parser._error_handler = self.parent_parser._error_handler", "parser.exit_on_error = self.parent_parser.exit_on_error", "parser.logger = self.parent_parser.logger", "parser.subcommand = name"]
+def addSubcommand : List String := ["if parser._subparsers is not None:\n    raise ValueError('Multiple levels of subcommands must be added in level order.')", "if self.dest == name or self.dest in kwargs.get('aliases', ()):\n    raise ValueError(f\"A subcommand name can't be the same as the subcommands dest: '{self.dest}'.\")", "parser.prog = f'{self._prog_prefix} [options] {name}'", "parser.env_prefix = f'{self.env_prefix}{name}_'", "parser.default_env = self.parent_parser.default_env", "parser.parent_parser = self.parent_parser", "parser.parser_mode = self.parent_parser.parser_mode", "parser._error_handler = self.parent_parser._error_handler", "parser.exit_on_error = self.parent_parser.exit_on_error", "parser.logger = self.parent_parser.logger", "parser.subcommand = name"]
 /-- the `default_env` setter assigns THROUGH THE PROPERTY on every sub-parser, i.e. recursively: environment parsing is
     on or off for the whole tree, which is why `handle`, `argvCall`, `parseArgs` and `layFuel` carry ONE `mode` -/
 def defaultEnvPropagation : List String := ["self._subcommands_action", "for subparser in self._subcommands_action._name_parser_map.values():\n    subparser.default_env = self._default_env"]
@@ -653,7 +675,7 @@ def defaultEnvPropagation : List String := ["self._subcommands_action", "for sub
     `merge e d` in `layerC` and the three loops of `loadEnvC` -/
 def getEnvVarBody : List String := ["if isinstance(parser_or_formatter, DefaultHelpFormatter):\n    parser = parent_parser.get()\nelse:\n    parser = parser_or_formatter", "assert parser is not None", "env_var = ''", "if isinstance(parser.env_prefix, str):\n    env_var = parser.env_prefix.replace('-', '_') + '_'", "if action:\n    env_var += action.dest", "env_var = env_var.replace('.', '__').upper()", "return env_var"]
 def envPrefixOfSubcommands : List String := ["subcommands.env_prefix = get_env_var(self)", "env_prefix = os.path.splitext(self.prog)[0]"]
-def defaultConfigFilesLoops : List String := ["for key, parser in parent_parsers.get():\n    for pattern in parser.default_config_files:\n        files = sorted(glob.glob(os.path.expanduser(pattern)))\n        default_config_files += [(key, v) for v in files]", "for pattern in self.default_config_files:\n    files = sorted(glob.glob(os.path.expanduser(pattern)))\n    default_config_files += [(None, x) for x in files]"]
+def defaultConfigFilesLoops : List String := ["for key, parser in parent_parsers.get()[-1:]:\n    for pattern in parser.default_config_files:\n        files = sorted(glob.glob(os.path.expanduser(pattern)))\n        default_config_files += [(key, v) for v in files]", "for pattern in self.default_config_files:\n    files = sorted(glob.glob(os.path.expanduser(pattern)))\n    default_config_files += [(None, x) for x in files]"]
 def parentParsersContext : List String := ["prev = parent_parsers.get()", "curr = [] if parser is None else prev + [(key, parser)]", "token = parent_parsers.set(curr)", "parent_parsers_context(key, parser)", "key = prefix + subcommand"]
 def defaultConfigLoad : List String := ["if key and isinstance(cfg_dict, dict):\n    cfg_dict = cfg_dict.get(key, {})", "cfg_file = self._load_config_parser_mode(default_config_file.get_content(), key=key)", "cfg = self.merge_config(cfg_file, cfg)"]
 def envOverDefaults : List String := ["cfg = self.merge_config(cfg_env, cfg)"]
@@ -663,7 +685,7 @@ def settingsCheck : List String := ["if not isinstance(value, Namespace):\n    r
 /-- EVERY statement of `get_subcommands`, in order (session 2).  `getSubCore` = statements 4-9 (`keys`, `expl`, the
     `if/elif` = `pick`/`sub`/`cfg1`/`warn`, the removal = `cfg2`, `todo`), `getSub` = statement 10 (the `fail_no_subcommand` block) and the
     return; statement 1 is the `.node _ .none _` case of `handle`/`sweep`/`checkReq`; `prefix` is the recursion into the section -/
-def bodyGetSubcommands : List String := ["if parser._subcommands_action is None:\n    return (None, None)", "action = parser._subcommands_action", "require_single = single_subcommand.get()", "subcommand_keys = [k for k in action.choices.keys() if isinstance(cfg.get(prefix + k), Namespace)]", "subcommand = None", "dest = prefix + action.dest", "if dest in cfg and cfg.get(dest) is not None:\n    subcommand = cfg[dest]\nelif len(subcommand_keys) > 0 and (fail_no_subcommand or require_single):\n    cfg[dest] = subcommand = subcommand_keys[0]\n    if len(subcommand_keys) > 1:\n        warnings.warn(f'Multiple subcommand settings provided ({', '.join(subcommand_keys)}) without an explicit \"{dest}\" key. Subcommand \"{subcommand}\" will be used.')", "if subcommand and len(subcommand_keys) > 1:\n    for key in [k for k in subcommand_keys if k != subcommand]:\n        del cfg[prefix + key]", "if subcommand:\n    subcommand_keys = [subcommand]", "if fail_no_subcommand:\n    if subcommand is None and (not (fail_no_subcommand and action._required)):\n        return (None, None)\n    if subcommand is not None and subcommand not in action._name_parser_map:\n        raise NSKeyError(f'expected \"{dest}\" to be one of {{{','.join(action._name_parser_map)}}}, but got: {subcommand!r}.')\n    if action._required and subcommand not in action._name_parser_map:\n        available_subcommands = list(action._name_parser_map.keys())\n        if len(available_subcommands) <= 5:\n            candidate_subcommands_str = '{' + ','.join(available_subcommands) + '}'\n        else:\n            candidate_subcommands_str = '{' + ','.join(available_subcommands[:5]) + ', ...}'\n        raise NSKeyError(f'expected \"{dest}\" to be one of {candidate_subcommands_str}, but it was not provided.')", "return (subcommand_keys, [action._name_parser_map.get(s) for s in subcommand_keys])"]
+def bodyGetSubcommands : List String := ["if parser._subcommands_action is None:\n    return (None, None)", "action = parser._subcommands_action", "require_single = single_subcommand.get()", "subcommand_keys = [k for k in action.choices.keys() if isinstance(cfg.get(prefix + k), Namespace)]", "subcommand = None", "dest = prefix + action.dest", "if dest in cfg and cfg.get(dest) is not None:\n    subcommand = cfg[dest]\nelif len(subcommand_keys) > 0 and (fail_no_subcommand or require_single):\n    cfg[dest] = subcommand = subcommand_keys[0]\n    if len(subcommand_keys) > 1:\n        warnings.warn(f'Multiple subcommand settings provided ({', '.join(subcommand_keys)}) without an explicit \"{dest}\" key. Subcommand \"{subcommand}\" will be used.')", "if subcommand and len(subcommand_keys) > 1:\n    for key in [k for k in subcommand_keys if k != subcommand]:\n        del cfg[prefix + key]", "if subcommand:\n    subcommand_keys = [subcommand]", "if subcommand is not None and subcommand not in action._name_parser_map:\n    raise NSKeyError(f'expected \"{dest}\" to be one of {{{','.join(action._name_parser_map)}}}, but got: {subcommand!r}.')", "if fail_no_subcommand:\n    if subcommand is None and (not (fail_no_subcommand and action._required)):\n        return (None, None)\n    if action._required and subcommand not in action._name_parser_map:\n        available_subcommands = list(action._name_parser_map.keys())\n        if len(available_subcommands) <= 5:\n            candidate_subcommands_str = '{' + ','.join(available_subcommands) + '}'\n        else:\n            candidate_subcommands_str = '{' + ','.join(available_subcommands[:5]) + ', ...}'\n        raise NSKeyError(f'expected \"{dest}\" to be one of {candidate_subcommands_str}, but it was not provided.')", "return (subcommand_keys, [action._name_parser_map.get(s) for s in subcommand_keys])"]
 /-- `get_subcommand`: the FIRST of the returned names (`r.todo.head?` in `sweep` and `checkReq`) -/
 def bodyGetSubcommand : List String := ["subcommands, subparsers = _ActionSubCommands.get_subcommands(parser, cfg, prefix=prefix, fail_no_subcommand=fail_no_subcommand)", "return (subcommands[0] if subcommands else None, subparsers[0] if subparsers else None)"]
 /-- EVERY statement of `handle_subcommands`: `handle` (the call of `getSub`, the early return = empty `todo`), `handleEach` (the loop in
@@ -672,7 +694,7 @@ def bodyHandleSubcommands : List String := ["subcommands, subparsers = _ActionSu
 /-- EVERY statement of `add_subcommand`: the two rejections (`wf`: a name differs from the subcommand key; level order), the
     attributes handed down (env prefix → `subPrefix`; `default_env`, `parser_mode`), the name-parser map in which ALIASES are further
     names of the same parser (in the model: a further entry of `choices` with the same sub-tree) -/
-def bodyAddSubcommand : List String := ["if parser._subparsers is not None:\n    raise ValueError('Multiple levels of subcommands must be added in level order.')", "if self.dest == name:\n    raise ValueError(f\"A subcommand name can't be the same as the subcommands dest: '{name}'.\")", "parser.prog = f'{self._prog_prefix} [options] {name}'", "parser.env_prefix = f'{self.env_prefix}{name}_'", "parser.default_env = self.parent_parser.default_env", "parser.parent_parser = self.parent_parser", "parser.parser_mode = self.parent_parser.parser_mode", "parser._error_handler = self.parent_parser._error_handler", "parser.exit_on_error = self.parent_parser.exit_on_error", "parser.logger = self.parent_parser.logger", "parser.subcommand = name", "aliases = kwargs.pop('aliases', ())", "help_arg = None", "if 'help' in kwargs:\n    help_arg = kwargs.pop('help')", "choice_action = self._ChoicesPseudoAction(name, aliases, help_arg)", "self._choices_actions.append(choice_action)", "self._name_parser_map[name] = parser", "for alias in aliases:\n    self._name_parser_map[alias] = parser", "return parser"]
+def bodyAddSubcommand : List String := ["if parser._subparsers is not None:\n    raise ValueError('Multiple levels of subcommands must be added in level order.')", "if self.dest == name or self.dest in kwargs.get('aliases', ()):\n    raise ValueError(f\"A subcommand name can't be the same as the subcommands dest: '{self.dest}'.\")", "parser.prog = f'{self._prog_prefix} [options] {name}'", "parser.env_prefix = f'{self.env_prefix}{name}_'", "parser.default_env = self.parent_parser.default_env", "parser.parent_parser = self.parent_parser", "parser.parser_mode = self.parent_parser.parser_mode", "parser._error_handler = self.parent_parser._error_handler", "parser.exit_on_error = self.parent_parser.exit_on_error", "parser.logger = self.parent_parser.logger", "parser.subcommand = name", "aliases = kwargs.pop('aliases', ())", "help_arg = None", "if 'help' in kwargs:\n    help_arg = kwargs.pop('help')", "choice_action = self._ChoicesPseudoAction(name, aliases, help_arg)", "self._choices_actions.append(choice_action)", "self._name_parser_map[name] = parser", "for alias in aliases:\n    self._name_parser_map[alias] = parser", "return parser"]
 /-- EVERY statement of `add_subcommands`: `dest`/`required` = `SubHdr`, `required_args.add(dest)` = the `reqkey` check of `checkReq`,
     `env_prefix = get_env_var(self)` = `subPrefix`; a second call is rejected by argparse (`super().add_subparsers`) -/
 def bodyAddSubcommands : List String := ["if 'description' not in kwargs:\n    kwargs['description'] = 'For more details of each subcommand, add it as an argument followed by --help.'", "default_config_files = self.default_config_files", "self.default_config_files = []", "subcommands: _ActionSubCommands = super().add_subparsers(dest=dest, **kwargs)", "self.default_config_files = default_config_files", "if required:\n    self.required_args.add(dest)", "subcommands._required = required", "subcommands.required = False", "subcommands.parent_parser = self", "subcommands.env_prefix = get_env_var(self)", "self._subcommands_action = subcommands", "return subcommands"]
